@@ -64,6 +64,9 @@ func SumFunc(query *Query, current Map, functionOptions *FunctionOptions, args [
 	if allNull {
 		return nil, nil
 	}
+	if math.IsInf(sum, 0) {
+		return nil, fmt.Errorf("the sum is not a finite number")
+	}
 	return sum, nil
 }
 
@@ -98,6 +101,9 @@ func AvgFunc(query *Query, current Map, functionOptions *FunctionOptions, args [
 	}
 	if allNull {
 		return nil, nil
+	}
+	if math.IsInf(sum, 0) {
+		return nil, fmt.Errorf("the sum is not a finite number")
 	}
 	sum /= float64(len(*slice))
 	return sum, nil
@@ -900,6 +906,10 @@ func ToFloat64(any any) (float64, error) {
 	number, err := strconv.ParseFloat(compare.Text(any), 64)
 	if err != nil {
 		return 0, err
+	}
+	if math.IsNaN(number) || math.IsInf(number, 0) {
+		// ParseFloat reads the words NaN, Inf and Infinity as well
+		return 0, fmt.Errorf("%v is not a finite number", any)
 	}
 	return number, nil
 }
